@@ -285,28 +285,14 @@ fn check_doc(text: &[u8], marks: &[Mark], paths: &[Vec<Step>], docs: &Value, spa
         } else {
             node_val.clone()
         };
+        let mut pending: Vec<(usize, String, &'static str, Value)> = Vec::new();
+        let sn = style_name(m);
         for off in m.start as usize..m.end as usize {
             st.offsets += 1;
             rep.trans(2);
-            let sn = style_name(m);
             let wh = where_in(text, m, off);
-            let ctxs = |rep: &mut Report, what: &str, got: Value| {
-                let c = context(text, marks, paths, m, docs);
-                let sig = match c {
-                    // failures inside a construct the LOADER mis-reads (C14 findings) are attributed to that construct
-                    Some(c) => format!("locate:loader-defect:{c}"),
-                    None if what.starts_with("jq:") => format!("locate:{what}"),
-                    None => format!("locate:{what}:{sn}:{wh}"),
-                };
-                rep.fail(&sig, size * 1000 + off, || {
-                    let mut b = base();
-                    b["offset"] = json!(off);
-                    b["token"] = json!({"start": m.start, "end": m.end, "key": m.key, "style": sn});
-                    b["expected_node_value"] = node_val.clone();
-                    b["expected_token_value"] = token_val.clone();
-                    b["got"] = got;
-                    b
-                });
+            let mut ctxs = |_rep: &mut Report, what: &str, got: Value| {
+                pending.push((off, what.to_string(), wh, got));
             };
             // ---- locate -> expression -> evaluate
             match catch(|| locate_offset_detailed(&ix, text, off)) {
@@ -363,6 +349,32 @@ fn check_doc(text: &[u8], marks: &[Mark], paths: &[Vec<Step>], docs: &Value, spa
                         ctxs(rep, "at_offset-wrong-value", v);
                     }
                 }
+            }
+        }
+        if !pending.is_empty() {
+            let tok_len = (m.end - m.start) as usize;
+            let c = context(text, marks, paths, m, docs);
+            let mut by_what: HashMap<String, usize> = HashMap::new();
+            for p in &pending {
+                *by_what.entry(p.1.clone()).or_default() += 1;
+            }
+            for (off, what, wh, got) in pending {
+                let wh = if by_what[&what] == tok_len && tok_len > 1 { "every-offset" } else { wh };
+                let sig = match c {
+                    // failures inside a construct the LOADER mis-reads (C14 findings) are attributed to that construct
+                    Some(c) => format!("locate:loader-defect:{c}"),
+                    None if what.starts_with("jq:") => format!("locate:{what}"),
+                    None => format!("locate:{what}:{sn}:{wh}"),
+                };
+                rep.fail(&sig, size * 1000 + off, || {
+                    let mut b = base();
+                    b["offset"] = json!(off);
+                    b["token"] = json!({"start": m.start, "end": m.end, "key": m.key, "style": sn});
+                    b["expected_node_value"] = node_val.clone();
+                    b["expected_token_value"] = token_val.clone();
+                    b["got"] = got;
+                    b
+                });
             }
         }
     }
